@@ -412,12 +412,15 @@ func c20CLI() vh.Unit {
 				go func() { cmd.Wait(); close(exited) }()
 				// a refused interval makes the process exit; an accepted one makes it register with
 				// the (in-process) pool and say so. No verdict from mere slowness: wait for either.
+				// (fast path: the agent's own log line; slow path, independent of any wording: a
+				// process that has not exited after 90 s was not refused - refusal happens right
+				// after flag parsing)
 				alive := false
-				for waited := 0; waited < 3000; waited++ {
+				for waited := 0; ; waited++ {
 					select {
 					case <-exited:
 					case <-time.After(100 * time.Millisecond):
-						if s := out.String(); strings.Contains(s, "Registered on pool") || strings.Contains(s, "Pool update") {
+						if s := out.String(); strings.Contains(s, "Registered on pool") || strings.Contains(s, "Pool update") || waited >= 900 {
 							alive = true
 						} else {
 							continue
